@@ -46,7 +46,9 @@ class EliminateVariable:
 
     def global_mutations(self, node, input_):
         ops = node[1:]
-        targets = list(filter(lambda n: n.is_leaf(), ops))
+        # Only eliminate symbols. Replacing a constant by another operand
+        # loops with substituting constants, e.g. (= x 0) -> (= x x) -> (= x 0).
+        targets = list(filter(lambda n: n.is_leaf() and not is_const(n), ops))
         for t in targets:
             for c in ops:
                 if c == t:
